@@ -241,8 +241,22 @@ def install(spec: Spec):
 
 
 
+
+def install_event_bus(spec: Spec):
+    """BaseEvent.event_bus (C09, finding F9)."""
+    running_bus = z3.Function('bus_running_the_current_handler', Ref, Ref)   # nothing in the code records it: uninterpreted
+    spec.specfuns['running_bus'] = lambda ex, e: V(obj('EventBus'), running_bus(e.term))
+    spec.fn('BaseEvent.event_bus', file=M, qual='BaseEvent.event_bus', params={'self': 'BaseEvent'}, returns='EventBus', allocates=False,
+            ensures=[('a_bus_named_like_the_last_path_entry', 'len(self.event_path) > 0 and result.name == self.event_path[len(self.event_path) - 1]', ['C09']),
+                     ('is_the_bus_running_this_handler', 'result is running_bus(self)', ['C09'])],
+            raises=[RaisesClause('AttributeError', label='outside_handler', when="not ctx('inside_handler')", origin='raise@', tags=['C09']),
+                    RaisesClause('RuntimeError', label='no_such_bus', origin='raise@', tags=['C09'])])
+    spec.properties[('BaseEvent', 'event_bus')] = 'BaseEvent.event_bus'
+
+
 def install_late(spec: Spec):
     """Contracts that refer to interference specs defined by service_c (installed after it)."""
+    install_event_bus(spec)
     from pyvc.values import mk_none
     # ------------------------------------------------------------------ BaseEvent.__await__ (C02 C03 C04 C05 C10 C15 C16)
     from pyvc.spec import Interference
